@@ -702,6 +702,13 @@ def gen_los(rng):
     if kind == "indivGev":
         c["gev"] = {"xi": round(rng.uniform(-0.3, 0.3), 3), "mean": round(rng.uniform(-0.1, 0.2), 4),
                     "sigma": round(rng.uniform(0.005, 0.2), 4)}
+    if rng.random() < 0.5:
+        # the object has been used before, with hyper-parameters that differ in ONE entry of the assigned population
+        # (a sampler moving along one coordinate): the draws depend on the current hyper-parameters only
+        w = [dict(k) for k in c["kwargs_los"]]
+        key = rng.choice(["xi", "xi", "mean", "sigma"])
+        w[c["idx"]][key] = round(w[c["idx"]][key] + rng.choice([0.11, -0.07, 0.2]), 4) if key != "sigma" else round(abs(w[c["idx"]][key]) + 0.013, 4)
+        c["warm"] = w
     return c
 
 
@@ -728,6 +735,12 @@ def call_los(c):
         r["bool"] = bool(los.draw_bool(kw))
     except Exception as e:  # noqa
         r["bool_err"] = err_enum(e)
+    if c.get("warm"):
+        try:
+            np.random.seed(c["seed"] + 1)
+            los.draw_los([dict(k) for k in c["warm"]], size=3)
+        except Exception:  # noqa  (the warm-up call may legitimately raise, e.g. an unsupported distribution name)
+            pass
     np.random.seed(c["seed"])
     with Recorder() as rec:
         try:
